@@ -122,6 +122,18 @@ func c03Alphabet(m int, rich bool) []c03Frame {
 		add(fmt.Sprintf("oversize+%d", k), "oversize", refcodec.EncodeFrame(6, p9p.MessageRread{Data: pat(d)}))
 	}
 	add("exactly-msize", "valid", refcodec.EncodeFrame(6, p9p.MessageRread{Data: pat(m - 11)}))
+	if m >= 256 {
+		// lists longer than one walk may carry, with a body that really holds them
+		q := p9p.Qid{Type: 0x80, Version: 3, Path: 4}
+		qs := make([]p9p.Qid, 17)
+		ns := make([]string, 17)
+		for i := range qs {
+			qs[i] = q
+			ns[i] = string(rune('a' + i))
+		}
+		add("Rwalk-17-qids", "valid", refcodec.EncodeFrame(7, p9p.MessageRwalk{Qids: qs}))
+		add("Twalk-17-names", "valid", refcodec.EncodeFrame(7, p9p.MessageTwalk{Fid: 1, Newfid: 2, Wnames: ns}))
+	}
 	add("unknown-type-250", "undecodable", refcodec.Frame([]byte{250, 1, 0, 9, 9}))
 	add("Terror-106", "undecodable", refcodec.Frame([]byte{106, 1, 0, 1, 0, 'x'}))
 	// bodies shorter than their message needs, at every cut
